@@ -336,11 +336,9 @@ func (w *world) verify(k int) string {
 		if d.Len() != r.Len() {
 			return fmt.Sprintf("%s.Len() = %d, container/list %d", name, d.Len(), r.Len())
 		}
-		if got := d.Values(); !eqInts(got, want) {
-			return fmt.Sprintf("%s.Values() = %v, container/list %v", name, got, want)
-		}
-
-		// walk both sides in lock step; elements created by Push*List are paired up here.
+		// walk both sides in lock step; elements created by Push*List are paired up here. The handle walks are bounded
+		// by the reference length and run BEFORE any whole-list iteration of the library (Values, ForEach, Range ...),
+		// so that a corrupted link (a cycle) is reported here instead of sending the library into an endless loop.
 		de, re := d.Front(), r.Front()
 		for n := 0; ; n++ {
 			if de == nil && re == nil {
@@ -358,6 +356,20 @@ func (w *world) verify(k int) string {
 				return fmt.Sprintf("%s: element #%d is %s in ds but %s in container/list", name, n, w.mapD(de), w.mapR(re))
 			}
 			de, re = de.Next(), re.Next()
+		}
+		{
+			n := 0
+			for de := d.Back(); de != nil; de = de.Prev() {
+				if n++; n > len(want) {
+					return fmt.Sprintf("%s: walking Back/Prev does not end after %d elements (container/list has %d)", name, n, len(want))
+				}
+			}
+			if n != len(want) {
+				return fmt.Sprintf("%s: walking Back/Prev visits %d elements, container/list has %d", name, n, len(want))
+			}
+		}
+		if got := d.Values(); !eqInts(got, want) {
+			return fmt.Sprintf("%s.Values() = %v, container/list %v", name, got, want)
 		}
 		if f, rf := w.mapD(d.Front()), w.mapR(r.Front()); f != rf {
 			return fmt.Sprintf("%s.Front() = %s, container/list %s", name, f, rf)
